@@ -255,6 +255,37 @@ pub fn plan(prop: &str, tier: &str, seed: u64) -> Option<Plan> {
             p.extra_prefixes = vec!["c04_"];
             p.assumptions = vec!["read-only arenas are exercised by C09 and by the read-only sessions of E-SEQ (C05)".into(), "reads/writes outside the backing store are visible as signals, ASan reports (thorough) or corrupted neighbours".into()];
         }
+        "C09" => {
+            p.eval_counter = "c09_open_attempts";
+            p.min_eval = 1000;
+            p.min_distinct = 4;
+            p.rule = "part A: valid arena files (both flavours, three freelist kinds, reserved 0..16, non-zero bytes above the cursor) are mutated — each of the 8 identification bytes set to each of 256 values (thorough: x all 4 open variants; quick: a covering subset), truncation to every length 0..=prefix+8, arbitrary-byte files — and the unmodified file is opened with every (variant x expected freelist x expected magic version x capacity option); oracle = 20-line reference of the identification rule for the verdict + byte comparison of the file before/after every refused (and every read-only / private) open; part B: every mutating call of the safe API (+ clear, truncate) on arenas opened with map / map_copy_read_only must return ReadOnly or panic with the documented message, leave allocated/discarded/min segment size/free list and the file bytes unchanged; a crash of the child is a violation; distinct_nontrivial = distinct seed files x sweeps + read-only sessions".into();
+            let nfiles = if quick { "4" } else { "24" };
+            for variant in ["rel", "dbg"] {
+                let mut a = sv(&["files", "--seed", &seed.to_string(), "--part", "a", "--files", if variant == "dbg" { "2" } else { nfiles }]);
+                if !quick && variant == "rel" {
+                    a.push("--thorough".into());
+                }
+                let mut j = Job::new(&format!("files-a-{}", variant), &bin(variant), a);
+                j.timeout_s = 1800;
+                p.jobs.push(j);
+                for mode in ["Map", "MapCopyRo"] {
+                    for fl in ["sync", "unsync"] {
+                        let mut j = Job::new(&format!("files-b-{}-{}-{}", variant, mode, fl), &bin(variant), sv(&["files", "--seed", &seed.to_string(), "--part", "b", "--mode", mode, "--flavour", fl, "--files", "3"]));
+                        j.timeout_s = 600;
+                        p.jobs.push(j);
+                    }
+                }
+            }
+            p.required_nonzero = sv(&["c09_refused_open_file_compares", "c09_readonly_file_compares", "c09_readonly_errors", "c09_readonly_documented_panics", "c09_id_byte_sweeps", "c09_truncation_sweeps"]);
+            p.extra_prefixes = vec!["c09_"];
+            p.assumptions = vec![
+                "a read-only open does not state a freelist kind (it is taken from the file), so a kind mismatch is asserted for writable opens only".into(),
+                "growth of the file by zero bytes through an explicit capacity on a refused open is tolerated and counted".into(),
+                "truncations that keep a valid header but cut below the stored cursor are outside the statement".into(),
+                "remove_on_drop is documented to delete even read-only files and is checked under C13".into(),
+            ];
+        }
         _ => return None,
     }
     Some(p)
